@@ -490,3 +490,91 @@ func H14w_write_ringsize() {
 	}
 	vrtReach("C14.write_ringsize")
 }
+
+// H14b_close_while_blocked: the ring is closed while a producer waits for room
+// on a full ring: the producer gives up with io.EOF (it does not write), and
+// what the consumer still drains afterwards is the unread data, intact.
+func H14b_close_while_blocked() {
+	bf, err := newBuffer(1)
+	if err != nil {
+		panic(err)
+	}
+	bf.buf = vrtArrayBytes(int(bf.size))
+	c := []int64{0, bf.size - 1, 3*bf.size + 5}[vrtChoice("pos", 3)]
+	p := c + bf.size
+	bf.cseq.set(c)
+	bf.pseq.set(p)
+	bf.pseq.gate = c
+	var s [3]byte
+	for i := range s {
+		s[i] = vrtByte("s")
+		bf.buf[(c+int64(i))&bf.mask] = s[i]
+	}
+	xs := []byte{vrtByte("x"), vrtByte("x")}
+	var werr error
+	wn := 0
+	kind := vrtChoice("producer", 3)
+	vrtGo(func() {
+		switch kind {
+		case 0:
+			wn, werr = bf.Write(xs)
+		case 1:
+			_, _, werr = bf.WriteWait(2)
+		case 2:
+			wn, werr = bf.WriteCommit(2)
+		}
+	})
+	vrtQuiesce()
+	vrtAssert("C14.close_ok", bf.Close() == nil)
+	vrtJoin()
+	vrtAssert("C14.blocked_producer_gets_eof", werr == io.EOF && wn == 0)
+	vrtAssert("C14.producer_cursor_unchanged", bf.pseq.get() == p)
+	for i := range s {
+		vrtAssert("C14.unread_bytes_kept", bf.buf[(c+int64(i))&bf.mask] == s[i])
+	}
+	one := make([]byte, 1)
+	n, rerr := bf.Read(one)
+	vrtAssert("C14.drain_after_close", n == 1 && rerr == nil && one[0] == s[0])
+	vrtReach("C14.close_while_blocked")
+}
+
+type vrtFailingWriter struct{ err error }
+
+func (w vrtFailingWriter) Write(b []byte) (int, error) { return 0, w.err }
+
+// H14_writeto_writer_fails: when the destination's Write fails - with whatever
+// error, io.EOF included - WriteTo returns it and leaves the ring closed, so
+// that producers waiting for room are released.
+func H14_writeto_writer_fails() {
+	st := vrtRing(int64(vrtBound("N14chunk", 4)))
+	bf := st.bf
+	vrtAssume(st.avail >= 1)
+	errs := []error{io.EOF, io.ErrClosedPipe, ErrBufferNotReady}
+	e := errs[vrtChoice("error", len(errs))]
+	_, werr := bf.WriteTo(vrtFailingWriter{e})
+	vrtAssert("C14.writeto_returns_the_write_error", werr == e)
+	vrtAssert("C14.writeto_failure_closes_the_ring", bf.isDone())
+	vrtAssert("C14.writeto_failure_consumes_nothing", bf.cseq.get() == st.c)
+	_, _, e2 := bf.WriteWait(1)
+	vrtAssert("C14.writewait_after_close_eof", e2 == io.EOF)
+	vrtReach("C14.writeto_writer_fails")
+}
+
+// H14_sizes: newBuffer for requested sizes below, at and above the minimum,
+// powers of two or not: the ring is a power of two, at least the minimum, at
+// least what was asked for, and mask = size-1.
+func H14_sizes() {
+	sizes := []int64{1, 100, 1000, 3000, 4096, 8192, 16383, 16384, 16385, 20000, 65536}
+	n := sizes[vrtChoice("requested", len(sizes))]
+	bf, err := newBuffer(n)
+	vrtAssert("C14.newbuffer_ok", err == nil)
+	if err != nil {
+		return
+	}
+	vrtAssert("C14.size_power_of_two", bf.size&(bf.size-1) == 0)
+	vrtAssert("C14.size_at_least_two_read_blocks", bf.size >= 2*defaultReadBlockSize)
+	vrtAssert("C14.size_at_least_requested", bf.size >= n)
+	vrtAssert("C14.mask_is_size_minus_one", bf.mask == bf.size-1)
+	vrtAssert("C14.backing_array_is_the_ring", int64(len(bf.buf)) == bf.size)
+	vrtReach("C14.sizes")
+}
